@@ -54,11 +54,15 @@ def case(d):
         p = family.member_of(d, violating=0.7, opts={"small": True})
     if d.bool(0.25):
         # characters that some text APIs take for line boundaries: the stored file and the inline content must still agree
-        ch = d.choice(["\f", "\v", "\x1c", "\x1d", "\x1e", "\x85", "\u2028", "\u2029", "\r", "\r\n"])
+        ch = d.choice(["\f", "\v", "\x1c", "\x1d", "\x1e", "\x85", "\u2028", "\u2029", "\r", "\r\n", "\ufeff", "\ufeff"])
         lines = p.text.split("\n")
         at = d.int(12, max(12, len(lines) - 2))
         where = d.choice(["own-line", "in-comment", "end-of-line"])
-        if ch == "\r\n":
+        if ch == "\ufeff" and d.bool(0.7):
+            # a byte order mark in front of the file (editors on Windows write one): stored and inline content must still agree
+            text = ch + p.text
+            where = "file-start"
+        elif ch == "\r\n":
             text = "\r\n".join(lines)
         elif where == "own-line":
             lines.insert(at, ch)
